@@ -297,12 +297,23 @@ class Gen:
                 sig = sig.replace(old, new, 1)
                 self.fidelity.append(dict(rule="sig-subst", file=s.path, line=sig_line, fn=key, before=old, after=new))
             if ctr.ret:
-                m = re.search(r"->\s*(.+?)\s*$", sig, re.S)
-                if not m:
+                # the function's own return arrow: the last `->` outside any delimiter
+                sm = mask(sig)
+                d = 0
+                pos = -1
+                for i_, ch_ in enumerate(sm):
+                    if ch_ in "([{":
+                        d += 1
+                    elif ch_ in ")]}":
+                        d -= 1
+                    elif d == 0 and sm.startswith("->", i_):
+                        pos = i_
+                if pos < 0:
                     raise Undecided("%s: no return type to name" % key)
-                sig = sig[:m.start()] + "-> (%s: %s)" % (ctr.ret, m.group(1).strip()) + "\n"
+                rty = sig[pos + 2:].strip()
+                sig = sig[:pos] + "-> (%s: %s)" % (ctr.ret, rty) + "\n"
                 self.fidelity.append(dict(rule="R-ret", file=s.path, line=sig_line, fn=key,
-                                          before="-> " + m.group(1).strip(), after="-> (%s: %s)" % (ctr.ret, m.group(1).strip())))
+                                          before="-> " + rty, after="-> (%s: %s)" % (ctr.ret, rty)))
             for a in ctr.attrs:
                 self.emit(indent + a)
         self.emit(sig.rstrip(), dict(file=s.path, line=sig_line, item=key, kind="sig"))
